@@ -71,6 +71,19 @@ def attribute(task, res):
         return
     cfg = dict(task['cfgobj'])
     cfg['ban'] = task['ban']
+    if task.get('use_ranges'):
+        # If the optimized plan, read with ideal operator semantics (a scan's filter is applied as a filter), already equals
+        # the bound plan, the rewrites are innocent: the difference comes from how the engine executes the pushed filter.
+        # That is never attributed to a known-unsound rewrite.
+        try:
+            t0 = dict(task)
+            t0['use_ranges'] = False
+            r0 = tv.solve_pair(t0)
+            if r0['verdict'] == 'unsat':
+                res['without_known_bad_rules'] = {'verdict': 'not-applicable', 'why': 'the optimized plan is equivalent to the bound plan under ideal scan-filter semantics; the difference is in the engine contract'}
+                return
+        except Exception:
+            pass
     try:
         cat, plans = get_plans(task['ddl'], [task['sql']], [cfg])
         o = plans[0]['opt'][cfg['name']]
